@@ -6,7 +6,74 @@ from .. import refbatch
 from . import _records
 
 
+def failed_write(r, nb):
+    """a write_batch call that raises in the middle of a record; returns the exception class name"""
+    import dataclasses
+    import datetime
+    import io
+
+    from kio.records.writers import write_batch
+    b = rc.py_new_batch(nb)
+    k = r.randrange(len(b.records))
+    rec = b.records[k]
+    how = r.choice(["str-key", "str-value", "naive-timestamp", "str-header"])
+    if how == "str-key":
+        bad = dataclasses.replace(rec, key="not bytes")
+    elif how == "str-value":
+        bad = dataclasses.replace(rec, value="not bytes")
+    elif how == "naive-timestamp":
+        bad = dataclasses.replace(rec, timestamp=datetime.datetime(2024, 1, 1, 12, 0, 0))
+    else:
+        from kio.records.schema import RecordHeader
+        bad = dataclasses.replace(rec, headers=(RecordHeader(key=b"k", value="not bytes"),))
+    b = dataclasses.replace(b, records=b.records[:k] + (bad,) + b.records[k + 1:])
+    try:
+        write_batch(io.BytesIO(), b)
+        return "no error"
+    except Exception as e:  # noqa
+        return type(e).__name__
+
+
+def concurrent_writes(r, quick):
+    """several threads write their own batches at once (tiny switch interval); every output must equal the one
+    produced alone"""
+    import sys
+    import threading
+
+    batches = []
+    for _ in range(4):
+        nb = rc.gen_new_batch(r)
+        while len(nb["records"]) < 3:
+            nb = rc.gen_new_batch(r)
+        batches.append(nb)
+    alone = [rc.impl_write(rc.py_new_batch(nb)) for nb in batches]
+    objs = [rc.py_new_batch(nb) for nb in batches]
+    bad = []
+    old = sys.getswitchinterval()
+    sys.setswitchinterval(1e-6)
+    try:
+        barrier = threading.Barrier(len(batches))
+        rounds = 40 if quick else 400
+
+        def work(i):
+            barrier.wait()
+            for _ in range(rounds):
+                out = rc.impl_write(objs[i])
+                if out != alone[i]:
+                    bad.append(i)
+                    return
+        ts = [threading.Thread(target=work, args=(i,)) for i in range(len(batches))]
+        for t in ts:
+            t.start()
+        for t in ts:
+            t.join()
+    finally:
+        sys.setswitchinterval(old)
+    return [batches[i] for i in sorted(set(bad))], rounds * len(batches)
+
+
 def run(ctx):
+    n_hist = 0
     r = random.Random(ctx["seed"])
     n = 400 if ctx["tier"] == "quick" else 6000
     wcases, prop_bad = [], []
@@ -15,6 +82,11 @@ def run(ctx):
         # the batch must not depend on what the buffer already holds: every third batch is written
         # behind leading bytes (e.g. an earlier batch of a record set)
         lead = b"" if i % 3 else bytes(r.getrandbits(8) for _ in range(r.choice([1, 7, 61, 300])))
+        if i % 9 == 4:
+            # "for every non-empty sequence of records", in every process state: a REJECTED write first (ill-typed
+            # key / naive timestamp / out-of-range offset: the writer raises part-way through a record)
+            n_hist += 1
+            failed_write(r, rc.gen_new_batch(r))
         out = rc.impl_write(rc.py_new_batch(nb), lead)
         wcases.append((nb, out))
         # the property on the implementation: an independent decoder recovers records and parameters
@@ -35,6 +107,9 @@ def run(ctx):
             prop_bad.append({"what": "batch parameters / records recovered by the independent decoder differ from the input",
                              "fields": diffs, "got": {k: hdr[k] for k in diffs}, "expected": {k: want[k] for k in diffs},
                              "records_equal": recs == exp_recs, "new_batch": _j(nb), "bytes": out[1].hex()[:400]})
+    conc_bad, n_conc = concurrent_writes(r, ctx["tier"] == "quick")
+    for nb in conc_bad[:2]:
+        prop_bad.append({"what": "a batch written while other threads write batches differs from the batch written alone", "new_batch": _j(nb)})
     # empty batch must be refused
     empty = dict(rc.gen_new_batch(r), records=[])
     out_e = rc.impl_write(rc.py_new_batch(empty))
